@@ -1,9 +1,15 @@
 import GV.Lib.Line
 import GV.Model.StoreCbor
+import GV.Model.OffsetsTruthA
+import GV.Model.PreserveTypes
 /-
   ops (feed_impl):
     blk <era> <desc> <hex> \t <impl>    stored spans of block/header/bodies/witness sets/aux/outputs + hash flag
     enc <kind> <era> <desc> <hex> \t <impl>   re-serialisation of unmodified decoded objects
+    reuse <kind> <era> <desc> <hexA> <hexB> \t <impl>   decode A, Hash(), decode B into the SAME object, Hash()
+    tx  <era> <desc> <hex> \t <impl>    standalone transaction (NewTransactionFromCbor)
+    hdr <era> <desc> <hex> \t <impl>    standalone block header (NewBlockHeaderFromCbor)
+    body <era> <desc> <hex> \t <impl>   standalone transaction body (NewTransactionBodyFromCbor)
 -/
 namespace GV.Drv.C01
 open GV.Line GV.Cbor GV.Model.Offsets GV.Model.OffsetsTruth GV.Model.StoreCbor
@@ -41,12 +47,34 @@ def modelLocs (era : String) (b : Bytes) : Option (List Loc) :=
 /-- (kind, era) pairs whose Go type has no byte-preserving MarshalCBOR today (known findings) -/
 def lossy (kind era : String) : Bool :=
   match kind with
-  | "blk" => era == "byron"
-  | "hdr" => era != "dijkstra"
-  | "body" => era != "mary"
+  -- blocks, headers, bodies, witness sets: decided by two regenerated tables — the concrete Go
+  -- type of the decoded component (GV.Gen.G10bTypes, reflection on the running code) and
+  -- whether that type's MarshalCBOR returns the stored bytes (GV.Gen.Preserve, go/ast)
+  | "blk" | "hdr" | "body" | "wit" => GV.Model.PreserveTypes.lossyKind kind era
+  -- outputs: one transaction can carry outputs of several concrete types (legacy array /
+  -- map form, wrapped types); every era shows non-preserved outputs today
   | "out" => true
-  | "wit" => ["shelley", "allegra", "mary", "alonzo", "conway", "dijkstra"].contains era
   | _ => false
+
+/-- stored spans inside a standalone transaction `[body, witness set, (is_valid,) aux/null]`
+    (Byron: `[body, witnesses]`): every component stores the span of its own item. -/
+def txLoc (era : String) (b : Bytes) : Option Loc :=
+  match kidsAt b (0, b.length) with
+  | some (body :: wit :: rest) =>
+    if era = "byron" then
+      let outs := match kidsAt b body with
+        | some (_ :: o :: _) => (kidsAt b o).getD []
+        | _ => []
+      some { body := body, wit := wit, outs := outs }
+    else
+      match outputsOf b body with
+      | none => none
+      | some outs =>
+        let aux := match rest.getLast? with
+          | some a => if slice b a.1 a.2 = [0xf6] then (0, 0) else a
+          | none => (0, 0)
+        some { body := body, wit := wit, aux := aux, outs := outs }
+  | _ => none
 
 def handle (line : String) : Out :=
   match line.splitOn "\t" with
@@ -60,10 +88,56 @@ def handle (line : String) : Out :=
         let model := match modelLocs era b, headerSpan b with
           | some ls, some h => fmtBlock b h ls
           | _, _ => "model-error"
-        let spec := match truth era b, headerSpan b with
+        -- the spec is evaluated with the array-backed machine on absolute positions
+        let ba := b.toArray
+        let spec := match GV.Model.OffsetsTruthA.truth era ba,
+            (GV.Model.OffsetsTruthA.kidsAt ba (0, ba.size)).bind List.head? with
           | some ls, some h => fmtBlock b h ls
           | _, _ => "*"
         { model := model, spec := spec }
+    | ["reuse", _, _, _, hexA, hexB] =>
+      -- decode A, ask the identifier (cached), decode B into the same object, ask again:
+      -- evaluated with the model's object (digest := the bytes themselves)
+      if impl = "dec=err" then { model := "dec=err", spec := "*" } else
+      match parseHex? hexA, parseHex? hexB with
+      | some a, some b =>
+        let o1 := (hashOf (D := Bytes) id (decodeInto {} a)).2
+        let okA := (hashOf id (decodeInto ({} : Obj Bytes) a)).1 == a
+        if impl.endsWith "B:err" then
+          let m := s!"dec=ok A:h={if okA then "ok" else "bad"} B:err"
+          { model := m, spec := "*" }
+        else
+          let o2 := decodeInto o1 b
+          let st := if o2.stored == some b then "ok" else s!"!{(o2.stored.getD []).length}"
+          let hb := (hashOf id o2).1 == (o2.stored.getD [])
+          let m := s!"dec=ok A:h={if okA then "ok" else "bad"} B:st={st} h={if hb then "ok" else "bad"}"
+          { model := m, spec := "dec=ok A:h=ok B:st=ok h=ok" }
+      | _, _ => badOp
+    | ["tx", era, _, hex] =>
+      if impl = "dec=err" then { model := "dec=err", spec := "*" } else
+      match parseHex? hex with
+      | none => badOp
+      | some b =>
+        let m := match txLoc era b with
+          | some l => s!"dec=ok tx=0+{b.length}" ++ fmtLoc l ++ " h=ok enc=ok"
+          | none => "model-error"
+        { model := m, spec := if m = "model-error" then "*" else m }
+    | ["body", _, _, hex] =>
+      if impl = "dec=err" then { model := "dec=err", spec := "*" } else
+      match parseHex? hex with
+      | none => badOp
+      | some b =>
+        let m := match outputsOf b (0, b.length) with
+          | some outs => s!"dec=ok body=0+{b.length} O" ++ ",".intercalate (outs.map fmtRange) ++ " h=ok"
+          | none => "model-error"
+        { model := m, spec := if m = "model-error" then "*" else m }
+    | ["hdr", _, _, hex] =>
+      if impl = "dec=err" then { model := "dec=err", spec := "*" } else
+      match parseHex? hex with
+      | none => badOp
+      | some b =>
+        let m := s!"dec=ok hdr=0+{b.length} h=ok enc=ok"
+        { model := m, spec := m }
     | ["enc", kind, era, _, _] =>
       -- the model has no re-encoder: it echoes the implementation's verdict; the
       -- property demands byte-identical re-serialisation whenever the block decodes
